@@ -22,6 +22,7 @@ DECIDED = [
     "R-C06-FIRST: (no due time is carried as timedelta.seconds without .days - whole days are not dropped;) the job's deferred_until reaches delay_until, and compute_next_execution_time returns delay_until "
     "first while it is still ahead",
     "R-C06-ONE (reuse): every iteration ends in an outcome (C02's CATCH) and a finished iteration is not also handed back at shutdown (C03's SHUTDOWN)",
+    "R-C06-RESET (round 5): Redis requeue really overwrites the stored parameters (HSET, not HSETNX); R-C06-ANCHOR (period form): floor + 1 of C19 reused - the successor is strictly after now also exactly on a slot boundary",
 ]
 NOT_DECIDED = ["the period arithmetic itself (strictly in the future, at most one period ahead): runtime values, see C19"]
 ASSUMPTIONS = ["exactly-one-requeue per run relies on C02 (one disposition) and C01 (requeue replaces the held message)"]
@@ -41,6 +42,12 @@ def run(ctx: Ctx) -> None:
     with ctx.as_rule("R-C06-ONE"):
         catch(ctx, "R-C06-ONE")  # an iteration always ends in an outcome (never escapes process()), so the reschedule branch is always reached: never no successor
         shutdown(ctx, "R-C06-ONE")  # a finished iteration's message is not also handed back by finish(): never two successors  # a run that completed must not also be returned to the queue: that would leave two successors
+    from .brokers import redis_op_fields
+    from .C19 import period
+
+    redis_op_fields(ctx, "R-C06-RESET")  # the successor's parameters (counter 0, fresh timestamp) are really stored by requeue (HSET overwrites the stored hash)
+    with ctx.as_rule("R-C06-ANCHOR"):
+        period(ctx, "R-C06-ANCHOR")  # floor + 1: strictly after now and a whole period after the slot that just ran, also exactly on a slot boundary
     from .delay import whole_duration_rule
 
     from .C05 import rounding
